@@ -264,13 +264,23 @@ def dictionary_cases(rng):
             alpha = [o for o in alpha if o[0] in keep or (len(o) > 1 and isinstance(o[1], int) and o[1] in vals)
                      or (o[0] in ("WriteBytes", "IoWrite") and len(o[1]) in vals)]
             near = (v - 1, v, v + 1)
+            def script_ints(steps):
+                for st in steps:
+                    for x in st[1:]:
+                        if isinstance(x, int) and not isinstance(x, bool):
+                            yield x
+                        elif isinstance(x, tuple):
+                            yield from script_ints(x)
             def p0(o):
-                if o[0] in ("Shift", "ReadAll", "TryParse", "Clear") or (o[0] == "Deframe" and o[1] in (0, 1, 2)):
+                if o[0] == "TryParse":
+                    ints = [x for x in script_ints(o[1]) if x in NOVEL]
+                    return 0 if (not ints or any(x in near for x in ints)) else 2
+                if o[0] in ("Shift", "ReadAll", "Clear") or (o[0] == "Deframe" and o[1] in (0, 1, 2)):
                     return 0
                 if any(isinstance(x, int) and x in near for x in o[1:]) or any(isinstance(x, tuple) and len(x) in near for x in o[1:]):
                     return 1
                 return 2
-            alpha = sorted(alpha, key=p0)[:(40 if S <= 140000 else 26)]
+            alpha = sorted(alpha, key=p0)[:(48 if S <= 140000 else 30)]
         if b.ln() > 4096:
             # the model's deframers are quadratic in the unread length: only the three provided ones, and (from_states) without the model
             alpha = [o for o in alpha if o[0] != "Deframe" or o[1] in (0, 1, 2)]
@@ -346,7 +356,7 @@ def dictionary_cases(rng):
     for g in groups:
         g.sort(key=prio)
     out, size, i = [], 0, 0
-    while len(out) < 2500 and size < 80000000 and any(groups):
+    while len(out) < 3000 and size < 160000000 and any(groups):
         g = groups[i % len(groups)]
         if g:
             c = g.pop(0)
